@@ -113,15 +113,14 @@ AllowedExact(s, e) == ActiveIn(Hist, EpochAt(s), EpochAt(e))
 
 Allowed(s, e) == IF plan.mode = "exact" THEN AllowedExact(s, e) ELSE AllowedFree(s, e)
 
-(* tokens served from the finalizer's cache count as created at their      *)
-(* creation time: all responses of the run carrying one jti share the      *)
-(* window [earliest start, earliest end]                                   *)
-(* (t.dup: the driver marks jtis occurring more than once; purely an index) *)
-PlanLines == {i \in 1..Len(Trace) : Trace[i].ev = "plan"}
-RunEnd == Min({i \in PlanLines : i > pl} \cup {Len(Trace) + 1}) - 1
-Group(t) == {i \in pl..RunEnd : Trace[i].ev = "token" /\ Trace[i].jti = t.jti}
-Lo(t) == IF t.dup THEN Min({Trace[i].start : i \in Group(t)}) ELSE t.start
-Hi(t) == IF t.dup THEN Min({Trace[i].end : i \in Group(t)}) ELSE t.end
+(* A token handed out from the finalizer's cache is judged like any other:  *)
+(* the response carrying it must name and be signed with a key that was     *)
+(* active during that response's own request - a relying party verifies it  *)
+(* against the key set published then.  (The finalizer's cache key contains *)
+(* the signer's identity for exactly this reason.)  t.dup marks jtis that   *)
+(* occur more than once in a run; it is an index only.                      *)
+Lo(t) == t.start
+Hi(t) == t.end
 
 TokenViolations(t) ==
   LET tok == [kid |-> t.kid, alg |-> t.alg, key |-> t.key] IN
